@@ -25,6 +25,8 @@ pub enum Point {
     NotifBegin(String),
     /// loop thread: the notification handler returned normally
     NotifDone,
+    /// loop thread: waiting for request workers to release the server
+    NotifWaiting,
     /// loop thread: a panic while handling a message was caught
     LoopPanic(String),
     /// loop thread: `exit` received
